@@ -15,6 +15,24 @@ HOSTILE = ['"', "'", '&', '<', '>', ']]>', '--', '<!--', '-->', '{>>', '<<}', '~
            '|', ':', ';', '/', '\\', 'é', ' ', '中', '\U0001F600', 'x', 'word', ' ', '  ', '\t', "''", '``', '...', '---', '"quoted"', "it's", '<http://e.x/?a=1&b=2>', '&amp;amp;']
 
 
+# "clean" cases: only material for which no pass-through is documented and no escaping site is recorded, so that the whole
+# document is expected to be well-formed and no recorded finding can mask a new one (expat stops at the first error)
+PASSTHROUGH = ('&copy;', '&nbsp;', '&bogus;', '&#0;', '&#169;', '&#xA9;', '&amp;', '&lt;', '&amp;amp;', '<b>', '</b>', '<br>', '<br/>', '<a href="x">', '</text:p>', '<![CDATA[', '<?xml', '?>', '<!--', '-->',
+               '{>>', '<<}', '\\ ', '<http://e.x/?a=1&b=2>')
+CLEAN = [a for a in HOSTILE if a not in PASSTHROUGH]
+CLEAN_KINDS = [k for k in slots.ALL_KINDS if k not in ('image-title', 'image-alt', 'figure', 'link-attr', 'fenced-lang', 'html-inline', 'html-block', 'html-comment', 'raw-filter', 'critic-comment',
+                                                        'meta-html-header')]
+
+
+def clean_payload(rng, kind):
+    out = ''.join(rng.choice(CLEAN) for _ in range(rng.randint(1, 4)))
+    if kind in ('link-url', 'autolink', 'email', 'meta-key', 'meta-css', 'manual-label', 'superscript', 'subscript'):
+        out = out.replace(' ', '').replace('\t', '')
+    if kind in ('link-title', 'ref-title'):
+        out = out.replace('"', "'")          # stays one title
+    return out
+
+
 def payload(rng, kind):
     out = ''.join(rng.choice(HOSTILE) for _ in range(rng.randint(1, 5)))
     if kind in ('link-url', 'autolink', 'email', 'meta-key', 'meta-css', 'manual-label', 'link-attr', 'fenced-lang', 'superscript', 'subscript'):
@@ -75,8 +93,12 @@ def work(job):
     with core.Session(r) as s:
         for i in range(lo, hi):
             rng = core.job_rng(seed, ID, i)
-            if rng.random() < 0.8:
+            mode = rng.random()
+            if mode < 0.4:
                 text, sl = slots.build(rng, payload)
+            elif mode < 0.8:
+                text, sl = slots.build(rng, clean_payload, kinds=CLEAN_KINDS, nslots=rng.randint(1, 4))
+                r.stats['clean_documents'] += 1
             else:
                 from lib import gendoc
                 text, sl = gendoc.random_document(rng), []
@@ -123,7 +145,7 @@ def work(job):
 
 def main():
     chk = core.Check(ID)
-    n = chk.scale(4000, 150000)
+    n = chk.scale(12000, 300000)
     chk.rule = ('document i = f(VERIF_SEED, i): slot documents (3-10 of %d syntactic positions) filled with XML-hostile atoms (quotes, & < >, ]]>, comment and CDATA markers, '
                 'named/numeric/bogus entities, escaped characters, raw tags, CriticMarkup and math delimiters, multi-byte) or generated documents; each rendered to opml, fodt, '
                 'itmz, odt, epub; every XML/XHTML member parsed by expat; distinct = distinct (source, ext, lang)' % len(slots.ALL_KINDS))
